@@ -957,7 +957,10 @@ class CollapseCollector(WrappingCollector):
         else:
             return ilen(self.all_ids())
 
-    def collect_matches(self):
+    def collect(self, sub_docnum):
+        # The collapsing is done here, not in collect_matches(), so that a
+        # wrapping collector (e.g. FilterCollector) that drives this one
+        # through collect() does not bypass it
         lists = self.lists
         limit = self.limit
         keyer = self.keyer
@@ -967,43 +970,43 @@ class CollapseCollector(WrappingCollector):
         child = self.child
         matcher = child.matcher
         offset = child.offset
-        for sub_docnum in child.matches():
-            # Collapsing category key
-            ckey = keyer.key_to_name(keyer.key_for(matcher, sub_docnum))
-            if not ckey:
-                # If the document isn't in a collapsing category, just add it
-                child.collect(sub_docnum)
-            else:
-                global_docnum = offset + sub_docnum
 
-                if orderer:
-                    # If user specified a collapse order, use it
-                    sortkey = orderer.key_for(child.matcher, sub_docnum)
-                else:
-                    # Otherwise, use the results order
-                    sortkey = child.sort_key(sub_docnum)
+        # Collapsing category key
+        ckey = keyer.key_to_name(keyer.key_for(matcher, sub_docnum))
+        if not ckey:
+            # If the document isn't in a collapsing category, just add it
+            return child.collect(sub_docnum)
 
-                # Current list of best docs for this collapse key
-                best = lists[ckey]
-                add = False
-                if len(best) < limit:
-                    # If the heap is not full yet, just add this document
-                    add = True
-                elif sortkey < best[-1][0]:
-                    # If the heap is full but this document has a lower sort
-                    # key than the highest key currently on the heap, replace
-                    # the "least-best" document
-                    # Tell the child collector to remove the document
-                    child.remove(best.pop()[1])
-                    add = True
+        global_docnum = offset + sub_docnum
 
-                if add:
-                    insort(best, (sortkey, global_docnum))
-                    child.collect(sub_docnum)
-                else:
-                    # Remember that a document was filtered
-                    collapsed_counts[ckey] += 1
-                    self.collapsed_total += 1
+        if orderer:
+            # If user specified a collapse order, use it
+            sortkey = orderer.key_for(child.matcher, sub_docnum)
+        else:
+            # Otherwise, use the results order
+            sortkey = child.sort_key(sub_docnum)
+
+        # Current list of best docs for this collapse key
+        best = lists[ckey]
+        add = False
+        if len(best) < limit:
+            # If the heap is not full yet, just add this document
+            add = True
+        elif sortkey < best[-1][0]:
+            # If the heap is full but this document has a lower sort
+            # key than the highest key currently on the heap, replace
+            # the "least-best" document
+            # Tell the child collector to remove the document
+            child.remove(best.pop()[1])
+            add = True
+
+        if add:
+            insort(best, (sortkey, global_docnum))
+            return child.collect(sub_docnum)
+        else:
+            # Remember that a document was filtered
+            collapsed_counts[ckey] += 1
+            self.collapsed_total += 1
 
     def results(self):
         r = self.child.results()
